@@ -1,9 +1,9 @@
 /-
 Refinement of the state-free update walk (`Nri.UpdateWalk.walk`, the specification side of
-the value clauses of C05 and C04) by the result.go model: list helpers, what one `simUpdate`
-step does to `taken` and to the resources per target, and the exact ledger reached by
-`claimAllPartial` (the claimed items are the prefix before the first owned one).
-Core Lean only.
+the value clauses of C05 and C04) by the result.go model: facts about `claimedPrefix`, what one
+`simUpdate` step does to `taken` and to the resources per target, and the exact ledger reached
+by `claimAllPartial` (the claimed items are the walk's claimed prefix: those before the first
+owned or repeated one). Core Lean only.
 -/
 import NriModel.UpdateWalk
 import NriModel.Lemmas.ResultAbs
@@ -11,102 +11,62 @@ import NriModel.Lemmas.ResultAbs
 namespace Nri.UpdateWalk
 open Nri.NApi Nri.Result Nri.Ledger
 
-/-! ### list helpers -/
+/-! ### `claimedPrefix` -/
 
-theorem eraseDups_of_nodup {α : Type} [BEq α] [LawfulBEq α] (l : List α) (h : l.Nodup) :
-    l.eraseDups = l := by
-  induction l with
-  | nil => rfl
-  | cons a rest ih =>
-    obtain ⟨ha, hr⟩ := List.nodup_cons.1 h
-    rw [List.eraseDups_cons]
-    have : rest.filter (fun b => !b == a) = rest := by
-      apply List.filter_eq_self.2
-      intro b hb
-      cases hba : b == a with
-      | false => rfl
-      | true => exact absurd (by rw [← eq_of_beq hba]; exact hb) ha
-    rw [this, ih hr]
+theorem claimedPrefix_length_le (c : Cid) (its : List Item) :
+    ∀ T, (claimedPrefix T c its).length ≤ its.length := by
+  induction its with
+  | nil => intro T; simp [claimedPrefix]
+  | cons x rest ih =>
+    intro T
+    simp only [claimedPrefix]
+    split
+    · simp
+    · simp only [List.length_cons]; have := ih ((c, x) :: T); omega
 
-theorem eraseDups_length_le {α : Type} [BEq α] [LawfulBEq α] : ∀ (n : Nat) (l : List α), l.length ≤ n → l.eraseDups.length ≤ l.length := by
-  intro n
-  induction n with
-  | zero => intro l h; cases l with
-    | nil => simp
-    | cons a as => simp at h
-  | succ n ih =>
-    intro l h
-    cases l with
-    | nil => simp
-    | cons a as =>
-      rw [List.eraseDups_cons]
-      simp only [List.length_cons] at h ⊢
-      have h1 : (as.filter fun b => !b == a).length ≤ as.length := List.length_filter_le _ _
-      have h2 := ih (as.filter fun b => !b == a) (by omega)
-      omega
+/-- a claimed prefix as long as the list is the list -/
+theorem claimedPrefix_eq_self_of_length (c : Cid) (its : List Item) :
+    ∀ T, (claimedPrefix T c its).length = its.length → claimedPrefix T c its = its := by
+  induction its with
+  | nil => intro T _; rfl
+  | cons x rest ih =>
+    intro T h
+    simp only [claimedPrefix] at h ⊢
+    split at h
+    · simp at h
+    · rename_i hx
+      simp only [hx, Bool.false_eq_true, ↓reduceIte]
+      simp only [List.length_cons, Nat.add_right_cancel_iff] at h
+      rw [ih _ h]
 
-theorem nodup_of_eraseDups_length_aux {α : Type} [BEq α] [LawfulBEq α] : ∀ (n : Nat) (l : List α), l.length ≤ n →
-    l.eraseDups.length = l.length → l.Nodup := by
-  intro n
-  induction n with
-  | zero => intro l h _; cases l with
-    | nil => exact List.nodup_nil
-    | cons a as => simp at h
-  | succ n ih =>
-    intro l h heq
-    cases l with
-    | nil => exact List.nodup_nil
-    | cons a as =>
-      rw [List.eraseDups_cons] at heq
-      simp only [List.length_cons] at h heq
-      have h1 : (as.filter fun b => !b == a).length ≤ as.length := List.length_filter_le _ _
-      have h2 := eraseDups_length_le _ (as.filter fun b => !b == a) (Nat.le_refl _)
-      have hfl : (as.filter fun b => !b == a).length = as.length := by omega
-      have hall := List.length_filter_eq_length_iff.1 hfl
-      have hf : as.filter (fun b => !b == a) = as := List.filter_eq_self.2 hall
-      rw [hf] at heq
-      refine List.nodup_cons.2 ⟨?_, ih as (by omega) (by omega)⟩
-      intro ha
-      have := hall a ha
-      simp at this
+/-- no claimed item was taken before -/
+theorem claimedPrefix_not_taken (c : Cid) (its : List Item) :
+    ∀ T, ∀ it ∈ claimedPrefix T c its, (c, it) ∉ T := by
+  induction its with
+  | nil => intro T it h; simp [claimedPrefix] at h
+  | cons x rest ih =>
+    intro T it h
+    simp only [claimedPrefix] at h
+    split at h
+    · cases h
+    · rename_i hx
+      rcases List.mem_cons.1 h with rfl | h
+      · simpa using hx
+      · intro hm
+        exact ih _ it h (List.mem_cons_of_mem _ hm)
 
-theorem nodup_of_eraseDups_length {α : Type} [BEq α] [LawfulBEq α] (l : List α)
-    (h : l.eraseDups.length = l.length) : l.Nodup :=
-  nodup_of_eraseDups_length_aux l.length l (Nat.le_refl _) h
-
-theorem takeWhile_congr_mem {α : Type} (p q : α → Bool) (l : List α) (h : ∀ x ∈ l, p x = q x) :
-    l.takeWhile p = l.takeWhile q := by
-  induction l with
-  | nil => rfl
-  | cons a rest ih =>
-    simp only [List.takeWhile_cons, h a List.mem_cons_self]
-    rw [ih (fun x hx => h x (List.mem_cons_of_mem _ hx))]
-
-theorem takeWhile_length_eq_iff {α : Type} (p : α → Bool) (l : List α) :
-    (l.takeWhile p).length = l.length ↔ ∀ x ∈ l, p x = true := by
-  induction l with
-  | nil => simp
-  | cons a rest ih =>
-    simp only [List.takeWhile_cons]
-    cases hp : p a with
-    | true =>
-      simp only [↓reduceIte, List.length_cons, Nat.add_right_cancel_iff, ih, List.mem_cons, forall_eq_or_imp, hp, true_and]
-    | false =>
-      simp only [Bool.false_eq_true, ↓reduceIte, List.length_nil, List.length_cons, List.mem_cons, forall_eq_or_imp, hp, false_and, iff_false]
-      omega
-
-theorem takeWhile_eq_self_of_length {α : Type} (p : α → Bool) (l : List α)
-    (h : (l.takeWhile p).length = l.length) : l.takeWhile p = l := by
-  induction l with
-  | nil => rfl
-  | cons a rest ih =>
-    simp only [List.takeWhile_cons] at h ⊢
-    cases hp : p a with
-    | true =>
-      rw [hp] at h
-      simp only [↓reduceIte, List.length_cons, Nat.add_right_cancel_iff] at h
-      simp only [↓reduceIte, ih h]
-    | false => rw [hp] at h; simp at h
+/-- the claimed items are pairwise distinct -/
+theorem claimedPrefix_nodup (c : Cid) (its : List Item) : ∀ T, (claimedPrefix T c its).Nodup := by
+  induction its with
+  | nil => intro T; simp [claimedPrefix]
+  | cons x rest ih =>
+    intro T
+    simp only [claimedPrefix]
+    split
+    · exact List.nodup_nil
+    · refine List.nodup_cons.2 ⟨?_, ih _⟩
+      intro hm
+      exact claimedPrefix_not_taken c rest _ x hm List.mem_cons_self
 
 /-! ### `Sim.get` / `Sim.put` -/
 
@@ -202,24 +162,29 @@ theorem ensure_get (base : Cid → Resources) (s : Sim) (c c' : Cid) :
 
 /-! ### one step of the walk -/
 
-/-- the items of `u` before the first taken one -/
-def freeOf (s : Sim) (u : Update) : List Item :=
-  (setsUpd u).takeWhile fun it => !(s.taken.contains (u.containerId, it))
+/-- the items of `u` before the first taken or repeated one -/
+def freeOf (s : Sim) (u : Update) : List Item := claimedPrefix s.taken u.containerId (setsUpd u)
 
 /-- the walk overlays `u` on its target -/
 def applies (s : Sim) (u : Update) : Bool :=
   match u.resources with
   | none => false
-  | some _ => (freeOf s u).length == (setsUpd u).length && (setsUpd u).eraseDups.length == (setsUpd u).length
+  | some _ => (freeOf s u).length == (setsUpd u).length
 
-theorem applies_nodup (s : Sim) (u : Update) (h : applies s u = true) : (setsUpd u).Nodup := by
+theorem applies_some (s : Sim) (u : Update) (h : applies s u = true) :
+    ∃ r, u.resources = some r ∧ freeOf s u = setsUpd u := by
   unfold applies at h
   cases hr : u.resources with
   | none => rw [hr] at h; cases h
   | some r =>
     rw [hr] at h
-    simp only [Bool.and_eq_true, beq_iff_eq] at h
-    exact nodup_of_eraseDups_length _ h.2
+    simp only [beq_iff_eq] at h
+    exact ⟨r, rfl, claimedPrefix_eq_self_of_length _ _ _ h⟩
+
+theorem applies_nodup (s : Sim) (u : Update) (h : applies s u = true) : (setsUpd u).Nodup := by
+  obtain ⟨_, _, hfree⟩ := applies_some s u h
+  rw [← hfree]
+  exact claimedPrefix_nodup _ _ _
 
 theorem simUpdate_none (base s) (u : Update) (h : u.resources = none) :
     simUpdate base s u = ensure base s u.containerId := by
@@ -233,7 +198,7 @@ theorem simUpdate_some (base s) (u : Update) (r : Resources) (h : u.resources = 
               (overlayRes ((ensure base s u.containerId).get base u.containerId) r r.pids)) with
           taken := s.taken ++ (setsUpd u).map fun it => (u.containerId, it) }
       else { ensure base s u.containerId with
-          taken := s.taken ++ (freeOf s u).eraseDups.map fun it => (u.containerId, it) } := by
+          taken := s.taken ++ (freeOf s u).map fun it => (u.containerId, it) } := by
   unfold simUpdate applies freeOf
   simp only [h]
   unfold ensure
@@ -242,11 +207,22 @@ theorem simUpdate_some (base s) (u : Update) (r : Resources) (h : u.resources = 
   · simp only [taken_put]
 
 theorem freeOf_none (s) (u : Update) (h : u.resources = none) : freeOf s u = [] := by
-  unfold freeOf setsUpd; simp [h]
+  unfold freeOf setsUpd; simp [h, claimedPrefix]
 
-/-- what a step does to `taken`: the items before the first taken one are added -/
+/-- what a step does to `taken`: the claimed prefix is added -/
 theorem simUpdate_taken (base s) (u : Update) (c : Cid) (it : Item) :
     (c, it) ∈ (simUpdate base s u).taken ↔ (c, it) ∈ s.taken ∨ (c = u.containerId ∧ it ∈ freeOf s u) := by
+  have key : ∀ l : List Item, (c, it) ∈ s.taken ++ l.map (fun it => (u.containerId, it)) ↔
+      (c, it) ∈ s.taken ∨ (c = u.containerId ∧ it ∈ l) := by
+    intro l
+    simp only [List.mem_append, List.mem_map, Prod.mk.injEq]
+    constructor
+    · rintro (h | ⟨x, hx, rfl, rfl⟩)
+      · exact .inl h
+      · exact .inr ⟨rfl, hx⟩
+    · rintro (h | ⟨rfl, hx⟩)
+      · exact .inl h
+      · exact .inr ⟨it, hx, rfl, rfl⟩
   cases hr : u.resources with
   | none =>
     rw [simUpdate_none base s u hr, ensure_taken, freeOf_none s u hr]
@@ -255,29 +231,11 @@ theorem simUpdate_taken (base s) (u : Update) (c : Cid) (it : Item) :
     rw [simUpdate_some base s u r hr]
     split
     · rename_i happ
-      have hlen : (freeOf s u).length = (setsUpd u).length := by
-        unfold applies at happ
-        simp only [hr, Bool.and_eq_true, beq_iff_eq] at happ
-        exact happ.1
-      have hfree : freeOf s u = setsUpd u := takeWhile_eq_self_of_length _ _ hlen
-      simp only [List.mem_append, List.mem_map, Prod.mk.injEq, hfree]
-      constructor
-      · rintro (h | ⟨x, hx, rfl, rfl⟩)
-        · exact .inl h
-        · exact .inr ⟨rfl, hx⟩
-      · rintro (h | ⟨rfl, hx⟩)
-        · exact .inl h
-        · exact .inr ⟨it, hx, rfl, rfl⟩
-    · simp only [List.mem_append, List.mem_map, Prod.mk.injEq, List.mem_eraseDups]
-      constructor
-      · rintro (h | ⟨x, hx, rfl, rfl⟩)
-        · exact .inl h
-        · exact .inr ⟨rfl, hx⟩
-      · rintro (h | ⟨rfl, hx⟩)
-        · exact .inl h
-        · exact .inr ⟨it, hx, rfl, rfl⟩
+      obtain ⟨_, _, hfree⟩ := applies_some s u happ
+      rw [hfree]
+      exact key _
+    · exact key _
 
-/-- what a step does to the resources: an applied update is overlaid on its target -/
 theorem simUpdate_get (base : Cid → Resources) (s : Sim) (u : Update) (c : Cid) :
     (simUpdate base s u).get base c =
       match u.resources with
@@ -302,7 +260,7 @@ theorem simUpdate_get (base : Cid → Resources) (s : Sim) (u : Update) (c : Cid
 end Nri.UpdateWalk
 
 namespace Nri.Result
-open Nri.NApi Nri.Ledger
+open Nri.NApi Nri.Ledger Nri.UpdateWalk
 
 /-! ### the ledger reached by `claimAllPartial` -/
 
@@ -324,37 +282,52 @@ theorem claimAll_ok_nodup (c : Cid) (p : Plugin) (o o' : Owners) (its : List Ite
       obtain ⟨e, he⟩ := claimAll_fails_of_owned c p _ rest x p (owner_insert_self o c x p) hx
       rw [he] at h'; cases h'
 
-/-- With distinct items, `claimAllPartial` claims exactly the items before the first owned one,
-    and reports no error exactly when that is all of them. -/
+/-- `claimAllPartial` claims exactly the walk's claimed prefix — the items before the first one
+    that has an owner or was named earlier in the list — and reports no error exactly when
+    that is all of them; for any taken-set `T` that agrees with the ledger on the target. -/
 theorem claimAllPartial_spec (c : Cid) (p : Plugin) (its : List Item) :
-    ∀ (o : Owners), its.Nodup →
-      (((claimAllPartial c p o its).2 = none ↔
-          (its.takeWhile fun it => (o.owner c it).isNone).length = its.length) ∧
+    ∀ (o : Owners) (T : List (Cid × Item)), (∀ it, (c, it) ∈ T ↔ (o.owner c it).isSome = true) →
+      (((claimAllPartial c p o its).2 = none ↔ (claimedPrefix T c its).length = its.length) ∧
        ∀ c' it', ((claimAllPartial c p o its).1.owner c' it').isSome = true ↔
-          ((o.owner c' it').isSome = true ∨ (c' = c ∧ it' ∈ its.takeWhile fun it => (o.owner c it).isNone))) := by
+          ((o.owner c' it').isSome = true ∨ (c' = c ∧ it' ∈ claimedPrefix T c its))) := by
   induction its with
-  | nil => intro o _; simp [claimAllPartial]
+  | nil => intro o T _; simp [claimAllPartial, claimedPrefix]
   | cons x rest ih =>
-    intro o hnd
-    obtain ⟨hx, hr⟩ := List.nodup_cons.1 hnd
+    intro o T hT
     cases ho : o.owner c x with
     | some q =>
       have hc : claim o c x p = .error (.conflict c x p q) := by unfold claim; rw [ho]
-      simp only [claimAllPartial, hc, List.takeWhile_cons, ho, Option.isNone_some, Bool.false_eq_true, ↓reduceIte,
-        List.length_nil, List.length_cons, List.not_mem_nil, and_false, or_false]
+      have hx : T.contains (c, x) = true := by
+        simp only [List.contains_eq_mem, decide_eq_true_eq]
+        exact (hT x).2 (by rw [ho]; rfl)
+      simp only [claimAllPartial, hc, claimedPrefix, hx, ↓reduceIte, List.length_nil, List.length_cons,
+        List.not_mem_nil, and_false, or_false]
       exact ⟨⟨fun h => (by cases h), fun h => (by omega)⟩, fun _ _ => trivial⟩
     | none =>
       have hc : claim o c x p = .ok (AList.insert o (c, x) p) := (claim_ok_iff _ _ _ _ _).2 ⟨ho, rfl⟩
-      have hcongr : (rest.takeWhile fun it => (Owners.owner (AList.insert o (c, x) p) c it).isNone) =
-          rest.takeWhile fun it => (o.owner c it).isNone := by
-        apply Nri.UpdateWalk.takeWhile_congr_mem
-        intro it hit
-        have hne : (c, x) ≠ (c, it) := by
-          intro h; cases h; exact hx hit
-        rw [owner_insert_other o c c x it p hne]
-      obtain ⟨ih1, ih2⟩ := ih (AList.insert o (c, x) p) hr
-      rw [hcongr] at ih1 ih2
-      simp only [claimAllPartial, hc, List.takeWhile_cons, ho, Option.isNone_none, ↓reduceIte, List.length_cons,
+      have hx : T.contains (c, x) = false := by
+        cases hcx : T.contains (c, x) with
+        | false => rfl
+        | true =>
+          simp only [List.contains_eq_mem, decide_eq_true_eq] at hcx
+          have := (hT x).1 hcx
+          rw [ho] at this; cases this
+      have hT1 : ∀ it, (c, it) ∈ (c, x) :: T ↔ (Owners.owner (AList.insert o (c, x) p) c it).isSome = true := by
+        intro it
+        by_cases heq : x = it
+        · subst heq
+          rw [owner_insert_self]
+          simp
+        · have hne : (c, x) ≠ (c, it) := by intro h; cases h; exact heq rfl
+          rw [owner_insert_other o c c x it p hne, ← hT it]
+          simp only [List.mem_cons, Prod.mk.injEq, true_and]
+          constructor
+          · rintro (h | h)
+            · exact absurd h.symm heq
+            · exact h
+          · exact fun h => .inr h
+      obtain ⟨ih1, ih2⟩ := ih (AList.insert o (c, x) p) ((c, x) :: T) hT1
+      simp only [claimAllPartial, hc, claimedPrefix, hx, Bool.false_eq_true, ↓reduceIte, List.length_cons,
         Nat.add_right_cancel_iff, List.mem_cons]
       refine ⟨ih1, fun c' it' => ?_⟩
       rw [ih2 c' it']
